@@ -43,6 +43,11 @@ func ruleRefusalCensus(p *Prog, r *Report) {
 		in := NewInterp(p)
 		out := in.Run(fn, defaultArgs(fn), nil)
 		sort.Slice(panics, func(i, j int) bool { return panics[i].Pos() < panics[j].Pos() })
+		// a refusal in a shared unexported helper stands for each of the
+		// helper's call sites (five copies of a check merged into one)
+		if sites := staticCallSites(p, fn, "ast"); sites > 1 && !exported(fn) && !isFactory(fn) {
+			r.Credit(rule, (sites-1)*len(panics))
+		}
 		for k, pn := range panics {
 			nPanics++
 			msg := "panic"
